@@ -247,6 +247,14 @@ class World:
                 s.env.pop(k, None)
             s.heap = dict(st.old_heap)
             return eng.ev(e.args[0], s)
+        if eng.spec_mode and isinstance(f, ast.Name) and (f.id in self.prims or f.id in self.specs or f.id in self.SPEC_HELPERS):
+            # in contract text a vocabulary name always denotes the vocabulary function, even if a local shadows it
+            args = [eng.ev(a, st) for a in e.args]
+            if f.id in self.SPEC_HELPERS:
+                return self.spechelper(eng, f.id, args, st, e)
+            if f.id in self.prims:
+                return self.prims[f.id](eng, args, st, e)
+            return self.apply_spec(eng, self.specs[f.id], args, st, e)
         if isinstance(f, ast.Attribute):
             base = eng.ev(f.value, st)
             return self.call_attr(eng, base, f.attr, e, st, f.value)
@@ -696,6 +704,27 @@ class World:
 
     # ---------------------------------------------------------------- contract calls
     def call_contract(self, eng, qual, recv, args, kwargs, st, node):
+        view = getattr(self, 'str_views', {}).get(qual)
+        if view is not None and self.strmode == 'str' and len(args) == 1:
+            a = args[0]
+            if isinstance(a, VPy) and isinstance(a.obj, str):
+                a = const_value(a.obj)
+            if isinstance(a, V) and isinstance(a.t, TOpt) and a.t.inner == STR:
+                eng.may_raise(st, 'TypeError', a.t.is_none(a.term), f'{qual.split(".")[-1]}(None)')
+                a = V(STR, a.t.val(a.term))
+            if isinstance(a, V) and isinstance(a.t, TUnion) and 'AStr' in a.t.alts:
+                eng.may_raise(st, 'TypeError', z3.Not(a.t.is_alt(a.term, 'AStr')), f'{qual.split(".")[-1]}() of a list value (unhashable)')
+                a = V(STR, a.t.get(a.term, 'AStr'))
+            if isinstance(a, V) and isinstance(a.t, TOpt) and isinstance(a.t.inner, TUnion) and 'AStr' in a.t.inner.alts:
+                u = a.t.inner
+                eng.may_raise(st, 'TypeError', z3.Or(a.t.is_none(a.term), z3.Not(u.is_alt(a.t.val(a.term), 'AStr'))),
+                              f'{qual.split(".")[-1]}() of None or of a list value')
+                a = V(STR, u.get(a.t.val(a.term), 'AStr'))
+            if isinstance(a, VNone):
+                eng.may_raise(st, 'TypeError', z3.BoolVal(True), f'{qual.split(".")[-1]}(None)')
+                return fresh(STR)
+            if isinstance(a, V) and a.t == STR:
+                return V(STR, view(a.term))
         c = self.contracts.get(qual)
         if c is None:
             raise Unsupported(f'call to {qual} which has no contract', node)
